@@ -480,6 +480,10 @@ class RequestHandler(BaseProtocol, Generic[_Request]):
 
         self._payload_parser = parser
         self._data_received_cb = data_received_cb
+        # The connection carries the installed protocol from now on, also when
+        # the request parser did not take the request head for an upgrade:
+        # flow control (pause_reading()) must not go to the HTTP parser.
+        self._upgraded = True
 
         if self._message_tail:
             self._payload_parser.feed_data(self._message_tail)
